@@ -54,6 +54,20 @@ Theorem C19_parallel_rrt_reports_real_paths_under_every_interleaving :
   end.
 Proof. exact par_report_spec. Qed.
 
+(* PRM: solve() runs a solution checking thread that lowers bestCost_ to the cost of every path it finds, and stores the final value
+   with the solution.  With the reset of bestCost_ placed before the thread is started (obligation prm_bestcost_before_thread of the
+   translator) every store of the call takes effect after the reset: whatever the variable held before (the NaN it is constructed
+   with included) and however many paths the thread finds, the value read after the join is the cost of one of them and none was
+   cheaper.  The pinned order — thread first, reset inside constructRoadmap() — loses a store that takes effect before the reset
+   (the defect repaired for C04) *)
+Theorem C19_prm_best_cost_kept : forall s0 c cs,
+  exists m, brun s0 (BInit :: map BStore (c :: cs)) = Some m /\ Forall (fun x => m <= x) (c :: cs) /\ In m (c :: cs).
+Proof. exact best_cost_kept. Qed.
+Theorem C19_prm_reset_after_spawn_refuted : brun None [BStore 5; BInit] = None.
+Proof. exact reset_after_spawn_refuted. Qed.
+
+Print Assumptions C19_prm_best_cost_kept.
+Print Assumptions C19_prm_reset_after_spawn_refuted.
 Print Assumptions C19_parallel_rrt_reports_real_paths_under_every_interleaving.
 Print Assumptions C19_terminate_from_another_thread_sticks.
 Print Assumptions C19_cached_only_terminate_refuted.
@@ -65,7 +79,7 @@ Print Assumptions C19_config_ok_counts_exact.
 
 Example C19_nonvacuous :
   shared (crun [AInc 0; AInc 1; AInc 0; AInc 2]) = 4 /\
-  config_ok (mkCfg true true true true true true true true true true) = true /\ config_ok (mkCfg false true true true true true true true true true) = false /\
+  config_ok (mkCfg true true true true true true true true true true true) = true /\ config_ok (mkCfg false true true true true true true true true true true) = false /\ config_ok (mkCfg true true true true true true true true true true false) = false /\
   prun true true false (mkP false false) [PEval; PThreadStore true; PEval; PThreadStore false; PEval; PTerminate; PThreadStore false; PEval] = [false; true; false; true] /\
   lrun nat nat nat (fun s o => (s + o, s)) 0 [(0, 5); (1, 7); (0, 1)] = (13, [(0, 0); (1, 5); (0, 12)]).
 Proof. vm_compute. repeat split. Qed.
